@@ -114,7 +114,7 @@ func psiRefIsUserTag(t uint8) bool { return t >= 0x80 && t <= 0xfe }
 
 const psiRefMJDEpoch = 40587 // MJD of 1970-01-01
 
-func psiRefBCD2(b byte) int { return int(b>>4)*10 + int(b&0xf) }
+func psiRefBCD2(b byte) int  { return int(b>>4)*10 + int(b&0xf) }
 func psiRefToBCD(v int) byte { return byte(v/10)<<4 | byte(v%10) }
 
 func psiRefDecodeTime(b []byte) time.Time {
